@@ -33,6 +33,9 @@ type Req struct {
 	Leaks     bool       `json:"leaks,omitempty"`     // after the call, wait for gtree goroutines to settle and report those left
 	ReadFail  *int       `json:"readfail,omitempty"`  // the reader delivers this many bytes and then fails with a sentinel error
 	WFault    *WFault    `json:"wfault,omitempty"`    // the writer refuses one Write call
+	OptMode   bool       `json:"optmode,omitempty"`   // the options of the call are exactly OptSeq (possibly empty)
+	OptSeq    []string   `json:"optseq,omitempty"`    // the options of the call, in this order (Options.tla's tokens), after WithTargetDir(jail/A); jail holds A and B
+	PreFiles  []string   `json:"prefiles,omitempty"`  // OptSeq mode: regular files made below the jail before the call
 	ErrWrap   string     `json:"errwrap,omitempty"`   // the injected reader/writer error also wraps "canceled" (context.Canceled) or "deadline"
 	Procs     int        `json:"procs,omitempty"`     // GOMAXPROCS for this call (0 = leave)
 	Yield     int        `json:"yield,omitempty"`     // reader, writer and callbacks yield / sleep (1 = Gosched, n>1 = n microseconds)
